@@ -33,11 +33,12 @@ from harness.common import Check, coq_Z, coq_list, coq_nat
 
 REGISTRY = dict(
     category="other",
-    text=("Seed-plumbing theorems (Coq, axiom-free, all n_envs / seeds / reset histories) + call-site scan judged by the model + paired-run search. Proved: after set_random_seed(s) the python, "
+    text=("No known finding. Seed-plumbing and action-noise theorems (Coq, axiom-free, all n_envs / seeds / reset and call histories) + call-site scan judged by the model + paired-run search. Proved: after set_random_seed(s) the python, "
           "numpy, torch generators and the action space are seeded with s and sub-env i has s+i pending; sub-env i receives s+i at the first reset and None at every later explicit or automatic "
           "reset; different seeds give different generator seeds and different delivered env seeds, different sub-envs different seeds; every consumer (buffer sampling, minibatch permutation, "
           "HER sampling, action noise, epsilon-greedy, warm-up, policy sampling, gSDE weights, target-policy noise, network initialisation, env dynamics) draws from a generator of that seeded registry; "
-          "the scan rule accepts exactly the sites resolving to it. NOT a theorem (decided by running the implementation): bit-identical parameters / buffers / actions of same-seed pairs and "
+          "the scan rule accepts exactly the sites resolving to it; re-seeding a built model seeds everything with the new seed; action noise (Normal / Ornstein-Uhlenbeck / Vectorized): OU mean closed form, "
+          "outputs are a function of the configuration VALUES and the recorded draws, initial_noise is never written, reset(indices) resets exactly those, no cross-talk between per-env copies. NOT a theorem (decided by running the implementation): bit-identical parameters / buffers / actions of same-seed pairs and "
           "difference under a changed seed, over the six algorithms x n_envs 1-3 x {discrete, continuous, Dict, goal} x {gSDE resampling, action noise, epsilon-greedy, warm-up, HER, VecNormalize}."),
     note=("All C10 theorems are closed under the global context (no axioms). Trusted: Coq 8.16.1 kernel, harness/c10.py (ast scan rules, hooks, entropy monitor), Python/numpy/torch/gymnasium. "
           "Paired runs are testing, not proof: a difference in a configuration that was not run is unseen; same machine, same process, CPU, torch.set_num_threads(1) only."),
